@@ -229,6 +229,11 @@ var domCfgs = []domCfg{
 	{recurse: true, reuse: "free", idthr: 256, hashthr: 16},
 	{recurse: true, byid: true, reuse: "free", idthr: 2, hashthr: 16},
 	{recurse: true, hash: true, reuse: "free", idthr: 256, hashthr: 1},
+	// a lazy load into a tree whose slots still hold the (recursively loaded) children of the previous document
+	{recurse: false, reuse: "free", idthr: 256, hashthr: 16},
+	{recurse: false, reuse: "reset", idthr: 256, hashthr: 16},
+	{recurse: false, byid: true, reuse: "free", idthr: 2, hashthr: 16},
+	{recurse: false, hash: true, reuse: "free", idthr: 256, hashthr: 1},
 }
 
 func (c *c05) run(dc DomCase, r *rand.Rand) {
